@@ -665,3 +665,327 @@ Section Inv.
         apply in_flat_map. exists st. split; assumption.
   Qed.
 End Inv.
+
+(* ------------------------------------------------------------------ slice_loop *)
+Section Loop.
+  Variable V Z : list string.
+  Hypothesis disj : forall c, In c Z -> ~ In c V.
+  Variable sd : list (string * list string).
+  Variable incl_ excl_ : list string.
+
+  Notation entry_ok := (entry_ok V Z).
+  Notation src_ok := (src_ok V Z).
+  Notation cut_inv := (cut_inv V Z).
+
+  Lemma entry_ok_block ss : entry_ok (SB ss) <-> Forall entry_ok ss.
+  Proof.
+    unfold SliceProofs.entry_ok. rewrite kshape_block, nodecl_block. cbn [stmt_mvs stmt_nullary].
+    rewrite Forall_forall, !forallb_forall. split.
+    - intros (K & N & HV & HZ) st Hst. repeat split; [now apply K|now apply N| |].
+      + intros x Hx. apply HV, in_flat_map. eauto.
+      + intros x Hx. apply HZ, in_flat_map. eauto.
+    - intros H. repeat split.
+      + intros st Hst. now apply (H st Hst).
+      + intros st Hst. now apply (H st Hst).
+      + intros x Hx. apply in_flat_map in Hx. destruct Hx as [st [Hst Hx]]. now apply (H st Hst).
+      + intros x Hx. apply in_flat_map in Hx. destruct Hx as [st [Hst Hx]]. now apply (H st Hst).
+  Qed.
+
+  Lemma entry_ok_SP_SA l ts pf : entry_ok (SP l ts pf) -> entry_ok (SA l ts).
+  Proof.
+    intros (K & N & HV & HZ). repeat split; try assumption.
+    cbn [kshape] in *. apply andb_true_iff in K. now destruct K.
+  Qed.
+
+  Lemma SD_SE_nodecl ants : forallb is_SD_SE ants = true -> forallb nodecl ants = true.
+  Proof.
+    rewrite !forallb_forall. intros H st Hst. specialize (H st Hst). destruct st; try discriminate; reflexivity.
+  Qed.
+
+  Definition good (s : database) : Prop := wf_db s = true /\ declares_all s = true /\ labels_resolve s.
+
+  Lemma slice_loop_good : forall stmts cut, Forall src_ok stmts -> cut_inv cut ->
+    forall l s, In (l, s) (fst (slice_loop sguards_fixed sd incl_ excl_ stmts cut [])) -> good s.
+  Proof.
+    induction stmts as [|st rest IH]; intros cut F CI l s Hin; [destruct Hin|].
+    inversion F as [|? ? Hst Fr]; subst.
+    cbn [slice_loop] in Hin.
+    assert (Hax : forall k, match_axiom st = MAx k ->
+              In (l, s) (fst (slice_loop sguards_fixed sd incl_ excl_ rest (dict_set k st cut) [])) -> good s).
+    { intros k Hk Hin'. destruct (match_axiom_ok st k Hk) as [N Hl].
+      eapply (IH (dict_set k st cut)); [exact Fr| |exact Hin'].
+      apply cut_inv_set; try assumption. now apply src_entry. }
+    assert (Hprov : match_axiom st = MNone ->
+              In (l, s) (fst (match deconstruct_provable st with
+                  | None => ([], true)
+                  | Some (ants, l0, ts, pf) =>
+                      let cut' := dict_set l0 (construct_axiom ants l0 ts) cut in
+                      if mem l0 incl_ && negb (mem l0 excl_) then
+                        match supporting sguards_fixed cut [] sd l0 ts pf ants with
+                        | None => ([], true)
+                        | Some s0 => let (ys, c) := slice_loop sguards_fixed sd incl_ excl_ rest cut' [] in ((l0, s0) :: ys, c)
+                        end
+                      else slice_loop sguards_fixed sd incl_ excl_ rest cut' []
+                  end)) -> good s).
+    { intros _ Hin'.
+      destruct (deconstruct_provable st) as [[[[ants l0] ts] pf]|] eqn:ED; [|destruct Hin'].
+      destruct (deconstruct_provable_ok _ _ _ _ _ ED) as [HA Hform].
+      assert (Nst : nodecl st = true).
+      { destruct Hform as [[-> _]| ->]; [reflexivity|]. rewrite nodecl_block, forallb_app.
+        rewrite (SD_SE_nodecl _ HA). reflexivity. }
+      pose proof (src_entry V Z st Hst Nst) as Est.
+      assert (EP : entry_ok (SP l0 ts pf) /\ Forall entry_ok ants).
+      { destruct Hform as [[-> ->]| ->]; [split; [assumption|constructor]|].
+        apply entry_ok_block in Est. apply Forall_app in Est. destruct Est as [E1 E2].
+        inversion E2; subst. split; assumption. }
+      destruct EP as [EP EA].
+      assert (CI' : cut_inv (dict_set l0 (construct_axiom ants l0 ts) cut)).
+      { apply cut_inv_set; try assumption.
+        - unfold construct_axiom. destruct ants as [|a ants']; [now apply entry_ok_SP_SA in EP|].
+          apply entry_ok_block. apply Forall_app. split; [assumption|].
+          constructor; [now apply entry_ok_SP_SA in EP|constructor].
+        - unfold construct_axiom. destruct ants as [|a ants']; [now left|].
+          cbn [stmt_labels]. rewrite flat_map_app. apply in_or_app. right. now left. }
+      cbv zeta in Hin'.
+      destruct (mem l0 incl_ && negb (mem l0 excl_)).
+      - destruct (supporting sguards_fixed cut [] sd l0 ts pf ants) as [s0|] eqn:ES; [|destruct Hin'].
+        destruct (slice_loop sguards_fixed sd incl_ excl_ rest (dict_set l0 (construct_axiom ants l0 ts) cut) [])
+          as [ys c] eqn:EY.
+        cbn [fst In] in Hin'. destruct Hin' as [E|Hin'].
+        + injection E as <- <-. destruct CI as [CF ND].
+          apply (supporting_good V Z disj cut sd l0 ts pf ants s0); try assumption. split; assumption.
+        + apply (IH _ Fr CI' l s). rewrite EY. exact Hin'.
+      - apply (IH _ Fr CI' l s Hin'). }
+    destruct st as [cs|vs|vs|l0 ty v|l0 ts|l0 ts|l0 ts pf|ss].
+    - eapply (IH cut); eassumption.
+    - eapply (IH cut); eassumption.
+    - cbn [g_d_in_place sguards_fixed] in Hin. eapply (IH (dict_add_anon (SD vs) cut)); [exact Fr| |exact Hin].
+      apply cut_inv_anon; [assumption|]. now apply src_entry.
+    - eapply (IH (dict_set l0 (SF l0 ty v) cut)); [exact Fr| |exact Hin].
+      apply cut_inv_set; [assumption| |now left]. now apply src_entry.
+    - cbn [g_top_essential sguards_fixed] in Hin. eapply (IH (dict_set l0 (SE l0 ts) cut)); [exact Fr| |exact Hin].
+      apply cut_inv_set; [assumption| |now left]. now apply src_entry.
+    - destruct (match_axiom (SA l0 ts)) as [| |k] eqn:EM; [destruct Hin|now apply Hprov|now apply (Hax k)].
+    - destruct (match_axiom (SP l0 ts pf)) as [| |k] eqn:EM; [destruct Hin|now apply Hprov|now apply (Hax k)].
+    - destruct (match_axiom (SB ss)) as [| |k] eqn:EM; [destruct Hin|now apply Hprov|now apply (Hax k)].
+  Qed.
+End Loop.
+
+Lemma wf_src V Z : forall db M, wf_stmts M db = true -> incl (M ++ decls db) V -> incl (db_nullary db) Z ->
+  Forall (src_ok V Z) db.
+Proof.
+  induction db as [|a db IH]; intros M W HV HZ; [constructor|].
+  cbn [wf_stmts] in W. apply andb_true_iff in W. destruct W as [Wa Wr].
+  unfold decls, db_nullary in *. cbn [flat_map] in *.
+  constructor.
+  - exists M. split; [|split; [assumption|]].
+    + intros x Hx. apply HV. apply in_or_app. now left.
+    + intros x Hx. apply HZ. apply in_or_app. now left.
+  - apply (IH (M ++ decl a)%list Wr).
+    + rewrite <- app_assoc. exact HV.
+    + intros x Hx. apply HZ. apply in_or_app. now right.
+Qed.
+
+Theorem slice_good db sd incl_ excl_ l s :
+  wf_db db = true -> consistent db = true ->
+  In (l, s) (fst (slice_database sguards_fixed db sd incl_ excl_)) ->
+  wf_db s = true /\ declares_all s = true /\ labels_resolve s.
+Proof.
+  intros W Cn Hin. unfold slice_database in Hin.
+  apply (slice_loop_good (decls db) (db_nullary db)) with (sd := sd) (incl_ := incl_) (excl_ := excl_)
+                                                          (stmts := db) (cut := []) (l := l).
+  - intros c Hc. unfold consistent in Cn. rewrite forallb_forall in Cn. specialize (Cn c Hc).
+    apply negb_true_iff in Cn. now apply mem_false.
+  - apply (wf_src _ _ db []); [exact W|apply incl_refl|apply incl_refl].
+  - split; [constructor|constructor].
+  - exact Hin.
+Qed.
+
+(* ------------------------------------------------------------------ floating order *)
+Lemma sublist_refl {A} (l : list A) : sublist l l.
+Proof. induction l; [apply sl_nil|now apply sl_cons]. Qed.
+
+Lemma sublist_trans {A} (l1 l2 l3 : list A) : sublist l1 l2 -> sublist l2 l3 -> sublist l1 l3.
+Proof.
+  intros H12 H23. revert l1 H12. induction H23 as [|x l2 l3 H IH|x l2 l3 H IH]; intros l1 H12.
+  - assumption.
+  - apply sl_skip. now apply IH.
+  - inversion H12; subst.
+    + apply sl_skip. now apply IH.
+    + apply sl_cons. now apply IH.
+Qed.
+
+Lemma sublist_app {A} (a b c d : list A) : sublist a b -> sublist c d -> sublist (a ++ c) (b ++ d).
+Proof. intros H1 H2. induction H1; cbn [app]; [assumption|now apply sl_skip|now apply sl_cons]. Qed.
+
+Lemma sublist_nil {A} (l : list A) : sublist [] l.
+Proof. induction l; [apply sl_nil|now apply sl_skip]. Qed.
+
+Lemma sublist_app_r {A} (a b c : list A) : sublist a b -> sublist a (b ++ c).
+Proof. intros H. rewrite <- (app_nil_r a). apply sublist_app; [assumption|apply sublist_nil]. Qed.
+
+Lemma dict_set_fresh k v d : ~ In k (keys d) -> dict_set k v d = (d ++ [(Some k, v)])%list.
+Proof.
+  induction d as [|[k' v'] d IH]; intros H; [reflexivity|].
+  simpl. destruct k' as [x|]; cbn [key_eqb].
+  - unfold keys in H. cbn [flat_map okey fst app] in H.
+    destruct (String.eqb_spec k x) as [->|Hne]; [exfalso; apply H; now left|].
+    rewrite IH; [reflexivity|]. intros Hin. apply H. now right.
+  - unfold keys in H. cbn [flat_map okey fst app] in H. now rewrite IH.
+Qed.
+
+Definition SFs (d : dict) : list stmt := filter is_SF (map snd d).
+
+Lemma keep_SF_sublist n2 M cut : sublist (filter is_SF (flat_map (keep_entry sguards_fixed n2 M) cut)) (SFs cut).
+Proof.
+  unfold SFs. induction cut as [|[k st] cut IH]; [apply sl_nil|].
+  cbn [flat_map map snd]. rewrite filter_app.
+  assert (H1 : sublist (filter is_SF (keep_entry sguards_fixed n2 M (k, st))) (if is_SF st then [st] else [])).
+  { unfold keep_entry. cbn [fst snd].
+    destruct st; cbn [is_SF];
+      match goal with |- context [if ?b then _ else _] => destruct b end; cbn [filter is_SF];
+      repeat first [apply sl_nil | apply sl_cons | apply sl_skip]. }
+  cbn [filter]. destruct (is_SF st).
+  - change (st :: filter is_SF (map snd cut)) with ([st] ++ filter is_SF (map snd cut))%list.
+    now apply sublist_app.
+  - apply (sublist_app _ [] _ _ H1 IH).
+Qed.
+
+Lemma filter_SF_slice C (M M' : list string) kept b :
+  filter is_SF (SC C :: (match M with [] => [] | _ => [SV M] end)
+                ++ map (fun p => SD [fst p; snd p]) (filter (pair_in M') []) ++ kept ++ [SB b]) = filter is_SF kept.
+Proof.
+  destruct M; cbn [app filter is_SF map]; rewrite filter_app; cbn [filter is_SF]; apply app_nil_r.
+Qed.
+
+Lemma filter_SF_slice0 C (M : list string) kept b :
+  filter is_SF (SC C :: (match M with [] => [] | _ => [SV M] end) ++ kept ++ [SB b]) = filter is_SF kept.
+Proof.
+  destruct M; cbn [app filter is_SF]; rewrite filter_app; cbn [filter is_SF]; apply app_nil_r.
+Qed.
+
+Lemma supporting_SFs cut sd l ts pf ess s :
+  supporting sguards_fixed cut [] sd l ts pf ess = Some s -> sublist (filter is_SF s) (SFs cut).
+Proof.
+  unfold supporting. intros H.
+  destruct (proof_labels pf); [|discriminate]. destruct (map_opt _ _); [|discriminate].
+  destruct (stmts_consts _); [|discriminate].
+  destruct (if g_float_consts sguards_fixed then _ else _); [|discriminate].
+  injection H as <-.
+  first [rewrite filter_SF_slice | rewrite filter_SF_slice0]. apply keep_SF_sublist.
+Qed.
+
+Lemma floating_loop sd incl_ excl_ : forall stmts pre cut,
+  NoDup (flat_map top_label (pre ++ stmts)) -> incl (keys cut) (flat_map top_label pre) ->
+  sublist (SFs cut) (filter is_SF pre) ->
+  forall l s, In (l, s) (fst (slice_loop sguards_fixed sd incl_ excl_ stmts cut [])) ->
+  sublist (filter is_SF s) (filter is_SF (pre ++ stmts)).
+Proof.
+  induction stmts as [|st rest IH]; intros pre cut ND HK HS l s Hin; [destruct Hin|].
+  assert (Happ : (pre ++ st :: rest = (pre ++ [st]) ++ rest)%list) by (rewrite <- app_assoc; reflexivity).
+  (* a statement stored under its top_label *)
+  assert (Hstore : forall k v, top_label st = [k] -> (is_SF v = true -> v = st) -> (is_SF st = true -> v = st) ->
+            In (l, s) (fst (slice_loop sguards_fixed sd incl_ excl_ rest (dict_set k v cut) [])) ->
+            sublist (filter is_SF s) (filter is_SF (pre ++ st :: rest))).
+  { intros k v Hk Hv1 Hv2 Hin'. rewrite Happ. apply (IH (pre ++ [st])%list (dict_set k v cut)) with (l := l).
+    - rewrite <- Happ. exact ND.
+    - assert (Hfresh : ~ In k (keys cut)).
+      { intros Hc. apply HK in Hc. rewrite flat_map_app in ND. cbn [flat_map] in ND. rewrite Hk in ND.
+        apply NoDup_remove_2 in ND. apply ND. apply in_or_app. now left. }
+      rewrite (dict_set_fresh k v cut Hfresh), keys_app. rewrite flat_map_app. cbn [flat_map]. rewrite Hk.
+      unfold keys at 2. cbn. apply incl_app; [now apply incl_appl|]. apply incl_appr. intros x [<-|[]]. now left.
+    - assert (Hfresh : ~ In k (keys cut)).
+      { intros Hc. apply HK in Hc. rewrite flat_map_app in ND. cbn [flat_map] in ND. rewrite Hk in ND.
+        apply NoDup_remove_2 in ND. apply ND. apply in_or_app. now left. }
+      rewrite (dict_set_fresh k v cut Hfresh). unfold SFs. rewrite map_app, !filter_app. cbn [map snd filter].
+      apply sublist_app; [exact HS|].
+      destruct (is_SF v) eqn:Ev.
+      + rewrite (Hv1 eq_refl) in *. rewrite Ev. apply sublist_refl.
+      + destruct (is_SF st) eqn:Es; [rewrite (Hv2 eq_refl) in Ev; congruence|constructor].
+    - exact Hin'. }
+  assert (Hskip : top_label st = [] -> is_SF st = false -> forall cut', keys cut' = keys cut -> SFs cut' = SFs cut ->
+            In (l, s) (fst (slice_loop sguards_fixed sd incl_ excl_ rest cut' [])) ->
+            sublist (filter is_SF s) (filter is_SF (pre ++ st :: rest))).
+  { intros Hk Hs cut' K' S' Hin'. rewrite Happ. apply (IH (pre ++ [st])%list cut') with (l := l).
+    - rewrite <- Happ. exact ND.
+    - rewrite K', flat_map_app. now apply incl_appl.
+    - rewrite S', filter_app. cbn [filter]. rewrite Hs, app_nil_r. exact HS.
+    - exact Hin'. }
+  cbn [slice_loop] in Hin.
+  assert (Hprov : forall (Hnsf : is_SF st = false), match_axiom st = MNone ->
+            (top_label st = match deconstruct_provable st with Some (_, l0, _, _) => [l0] | None => [] end) ->
+            In (l, s) (fst (match deconstruct_provable st with
+                | None => ([], true)
+                | Some (ants, l0, ts, pf) =>
+                    let cut' := dict_set l0 (construct_axiom ants l0 ts) cut in
+                    if mem l0 incl_ && negb (mem l0 excl_) then
+                      match supporting sguards_fixed cut [] sd l0 ts pf ants with
+                      | None => ([], true)
+                      | Some s0 => let (ys, c) := slice_loop sguards_fixed sd incl_ excl_ rest cut' [] in ((l0, s0) :: ys, c)
+                      end
+                    else slice_loop sguards_fixed sd incl_ excl_ rest cut' []
+                end)) -> sublist (filter is_SF s) (filter is_SF (pre ++ st :: rest))).
+  { intros Hnsf _ Htl Hin'.
+    destruct (deconstruct_provable st) as [[[[ants l0] ts] pf]|] eqn:ED; [|destruct Hin'].
+    cbv zeta in Hin'.
+    assert (Hca : is_SF (construct_axiom ants l0 ts) = false) by (unfold construct_axiom; destruct ants; reflexivity).
+    assert (Hrec : In (l, s) (fst (slice_loop sguards_fixed sd incl_ excl_ rest (dict_set l0 (construct_axiom ants l0 ts) cut) [])) ->
+                   sublist (filter is_SF s) (filter is_SF (pre ++ st :: rest))).
+    { apply Hstore; [assumption|intros H; congruence|intros H; congruence]. }
+    destruct (mem l0 incl_ && negb (mem l0 excl_)); [|now apply Hrec].
+    destruct (supporting sguards_fixed cut [] sd l0 ts pf ants) as [s0|] eqn:ES; [|destruct Hin'].
+    destruct (slice_loop sguards_fixed sd incl_ excl_ rest (dict_set l0 (construct_axiom ants l0 ts) cut) []) as [ys c] eqn:EY.
+    cbn [fst In] in Hin'. destruct Hin' as [E|Hin'].
+    - injection E as <- <-. apply supporting_SFs in ES.
+      apply (sublist_trans _ _ _ ES). apply (sublist_trans _ _ _ HS). rewrite filter_app. apply sublist_app_r, sublist_refl.
+    - apply Hrec. exact Hin'. }
+  destruct st as [cs|vs|vs|l0 ty v|l0 ts|l0 ts|l0 ts pf|ss].
+  - apply (Hskip eq_refl eq_refl cut eq_refl eq_refl Hin).
+  - apply (Hskip eq_refl eq_refl cut eq_refl eq_refl Hin).
+  - cbn [g_d_in_place sguards_fixed] in Hin. apply (Hskip eq_refl eq_refl (dict_add_anon (SD vs) cut)); [| |exact Hin].
+    + unfold dict_add_anon. rewrite keys_app. unfold keys at 2. cbn. now rewrite app_nil_r.
+    + unfold dict_add_anon, SFs. rewrite map_app, filter_app. cbn. now rewrite app_nil_r.
+  - apply (Hstore l0 (SF l0 ty v) eq_refl); auto.
+  - cbn [g_top_essential sguards_fixed] in Hin. apply (Hstore l0 (SE l0 ts) eq_refl); auto.
+  - cbn [match_axiom] in Hin. apply (Hstore l0 (SA l0 ts) eq_refl); auto.
+  - cbn [match_axiom] in Hin. apply (Hprov eq_refl eq_refl eq_refl Hin).
+  - destruct (match_axiom (SB ss)) as [| |k] eqn:EM; [destruct Hin| |].
+    + apply (Hprov eq_refl eq_refl); [|exact Hin]. cbn [top_label]. now rewrite EM.
+    + apply (Hstore k (SB ss)); auto. cbn [top_label]. now rewrite EM.
+Qed.
+
+Theorem slice_floating_order db sd incl_ excl_ l s :
+  unique_labels db -> In (l, s) (fst (slice_database sguards_fixed db sd incl_ excl_)) ->
+  floating_order_preserved db s.
+Proof.
+  intros U Hin. unfold floating_order_preserved.
+  apply (floating_loop sd incl_ excl_ db [] [] U) with (l := l).
+  - intros x [].
+  - constructor.
+  - exact Hin.
+Qed.
+
+Lemma assoc_get_In {A} k (d : list (string * A)) v : assoc_get k d = Some v -> In (k, v) d.
+Proof.
+  induction d as [|[k' v'] d IH]; simpl; [discriminate|].
+  destruct (String.eqb_spec k k') as [->|_]; intros H; [injection H as ->; now left|right; auto].
+Qed.
+
+Theorem slice_self_contained_all db sd incl_ excl_ l s :
+  wf_db db = true -> consistent db = true -> unique_labels db ->
+  In (l, s) (fst (slice_database sguards_fixed db sd incl_ excl_)) ->
+  (declares_all s = true /\ labels_resolve s) /\ floating_order_preserved db s /\ parse_db (print_db s) = Some s.
+Proof.
+  intros W Cn U Hin. destruct (slice_good db sd incl_ excl_ l s W Cn Hin) as (Ws & Ds & Ls).
+  split; [split; assumption|]. split; [now apply (slice_floating_order db sd incl_ excl_ l s)|].
+  now apply parse_print_db.
+Qed.
+
+Theorem slice_self_contained db sd lemma s :
+  wf_db db = true -> consistent db = true -> unique_labels db ->
+  slice sguards_fixed db sd lemma = Some s ->
+  (declares_all s = true /\ labels_resolve s) /\ floating_order_preserved db s /\ parse_db (print_db s) = Some s.
+Proof.
+  intros W Cn U H. unfold slice in H. apply assoc_get_In in H.
+  now apply (slice_self_contained_all db sd [lemma] [] lemma s).
+Qed.
